@@ -23,7 +23,7 @@ def schema_versions(version):
 def version_guard(sess, version, vars_, sv):
     m = sess.m
     if version == 3:
-        return m.atom(vars_["minor"], sv[-1])
+        return m.atom_opt(vars_["minor"], sv[-1])
     return m.TRUE
 
 
